@@ -42,7 +42,7 @@ MIN_EVALUATIONS = {"quick": 2000, "thorough": 50000}
 
 def plan(tier, seed):
     n = 16
-    per = 40 if tier == "quick" else 700
+    per = 70 if tier == "quick" else 700
     return [dict(seed=seed, shard=i, n=per) for i in range(n)]
 
 
